@@ -251,7 +251,8 @@ func (s *c20Sys) Key() string {
 	if !ok {
 		reg = "model:" + s.modelRegistry()
 	}
-	return fmt.Sprintf("reg[%s] ev=%d stun=%d removed[%s] read=%v", reg, s.privLen("events"), s.privLen("stun"), strings.Join(rem, ","), s.read)
+	// + whatever else the conn remembers directly in its own fields (nothing on the pinned tree)
+	return fmt.Sprintf("reg[%s] ev=%d stun=%d removed[%s] read=%v", reg, s.privLen("events"), s.privLen("stun"), strings.Join(rem, ","), s.read) + vpriv.Scalars(s.pc)
 }
 
 func (s *c20Sys) Apply(op c20Op) (err error) {
